@@ -152,7 +152,7 @@ def run(model, rep):
             rep.check(init, 'C09.OWN', fi.loc(n_), src(n_), 'initialisation before binding', 'taint is reset outside the binder\'s initialisation', key='C09.OWN|%s|False' % fi.qual)
         else:
             rep.violation('C09.OWN', fi.loc(n_), src(n_), 'taint written with a computed value', key='C09.OWN|%s|computed' % fi.qual)
-    rep.floor('C09.OWN', 5)
+    rep.floor('C09.OWN', 2)  # one initialisation, at least one trigger write; helpers may merge the trigger writes
 
 
 def gate_enum(model, rep):
